@@ -275,4 +275,83 @@ example : FeeInv exCfg := by unfold FeeInv exCfg feeUnit; decide
 example : calcFee exCfg 1000 = some 5 ∧ calcFee exCfg 100 = some 3 ∧ calcFee exCfg 100000 = some 10 := by
   unfold calcFee exCfg feeUnit; decide
 
+/-! ### withdrawing a rate (`TxDeleteRate`) -/
+
+/-- at most one rate per (deal type, currency) -/
+def Uniq (rs : List Rate) : Prop := rs.Pairwise (fun a b => ¬ (a.deal = b.deal ∧ a.cur = b.cur))
+
+theorem upd_key (deal cur : String) (rate : Nat) (r : Rate) :
+    (if r.deal = deal ∧ r.cur = cur then { r with rate := rate } else r).deal = r.deal ∧
+    (if r.deal = deal ∧ r.cur = cur then { r with rate := rate } else r).cur = r.cur := by
+  split <;> simp
+
+theorem setRate_uniq (c c' : Cfg) (deal cur : String) (rate : Nat) (h : Uniq c.rates)
+    (hs : setRate c deal cur rate = some c') : Uniq c'.rates := by
+  unfold setRate at hs
+  split at hs
+  · cases hs
+  · split at hs
+    · cases hs
+    · split at hs
+      · injection hs with hs; subst hs
+        simp only
+        unfold Uniq at *
+        rw [List.pairwise_map]
+        refine h.imp ?_
+        intro a b hab
+        rw [(upd_key deal cur rate a).1, (upd_key deal cur rate a).2, (upd_key deal cur rate b).1, (upd_key deal cur rate b).2]
+        exact hab
+      · rename_i hnone
+        injection hs with hs; subst hs
+        simp only
+        unfold Uniq at *
+        rw [List.pairwise_append]
+        refine ⟨h, List.pairwise_singleton _ _, ?_⟩
+        intro a ha b hb
+        simp only [List.mem_singleton] at hb
+        subst hb
+        simp only
+        intro hab
+        apply hnone
+        simp only [List.any_eq_true, decide_eq_true_eq]
+        exact ⟨a, ha, hab⟩
+
+theorem deleteRate_uniq (c c' : Cfg) (deal cur : String) (h : Uniq c.rates)
+    (hs : deleteRate c deal cur = some c') : Uniq c'.rates := by
+  unfold deleteRate at hs
+  split at hs
+  · cases hs
+  · injection hs with hs; subst hs
+    exact h.sublist (List.eraseP_sublist)
+
+theorem eraseP_no_match (deal cur : String) : ∀ (rs : List Rate), Uniq rs →
+    ∀ r ∈ rs.eraseP (fun r => r.deal = deal ∧ r.cur = cur), ¬ (r.deal = deal ∧ r.cur = cur) := by
+  intro rs
+  induction rs with
+  | nil => intro _ r hr; simp at hr
+  | cons x xs ih =>
+    intro h r hr hmatch
+    have hu := List.pairwise_cons.mp h
+    by_cases hx : x.deal = deal ∧ x.cur = cur
+    · rw [List.eraseP_cons_of_pos (by simpa using hx)] at hr
+      exact hu.1 r hr ⟨hx.1.trans hmatch.1.symm, hx.2.trans hmatch.2.symm⟩
+    · rw [List.eraseP_cons_of_neg (by simpa using hx)] at hr
+      rcases List.mem_cons.mp hr with e | e
+      · subst e; exact hx hmatch
+      · exact ih hu.2 r e hmatch
+
+/-- after a rate was withdrawn, no rate is found for that pair: buying, buying back and a fee in that
+    currency fail until it is set again -/
+theorem deleteRate_removes (c c' : Cfg) (deal cur : String) (h : Uniq c.rates)
+    (hs : deleteRate c deal cur = some c') : findRate c'.rates deal cur = none := by
+  unfold deleteRate at hs
+  split at hs
+  · cases hs
+  · injection hs with hs; subst hs
+    simp only [findRate, List.find?_eq_none, decide_eq_true_eq]
+    exact eraseP_no_match deal cur c.rates h
+
+
+example : Uniq ([] : List Rate) := List.Pairwise.nil
+
 end Foundation.Token
